@@ -13,7 +13,8 @@ DRIVER = "files_driver.py"
 SHARD = 120
 MB = 1 << 20
 RULE = ("one case = one end-to-end trip (input + output file handler, record -> save on one of the three cassettes -> "
-        "fetch -> replay at different paths) or one unit evaluation (_serialize/_deserialize_file, "
+        "fetch -> replay at different paths, the replayed path possibly holding a file already), one sequence (several "
+        "recordings replayed one after another / twice into the same path) or one unit evaluation (_serialize/_deserialize_file, "
         "_is_file_above_size_limit on a file of a given size, _get_file_path); non-trivial = a trip, or a limit "
         "evaluation within one byte of the limit, or a non-empty base64 content, or a path lookup with keywords; "
         "distinct = distinct case descriptions")
@@ -142,6 +143,31 @@ def dims_stream(rng):
             yield c
 
 
+PRE_KINDS = ["none", "longer", "shorter", "none", "same-size", "empty", "much-longer", "identical", "none",
+             "longer+stale-RI", "one-longer", "one-shorter"]
+_pre_counter = [0]
+
+
+def pre_state(rng, content):
+    """the input files present when the replay starts (the replayed path may already hold a file)"""
+    kind = PRE_KINDS[_pre_counter[0] % len(PRE_KINDS)]
+    _pre_counter[0] += 1
+    n = size_of(content)
+    if n > filespec.INLINE_MAX:
+        big = {"longer": n + 4097, "shorter": n // 2, "much-longer": 2 * n + 5, "one-longer": n + 1}.get(kind.split("+")[0])
+        return (kind, {"PI": {"sha": rng.randrange(1 << 30), "n": big}}) if big is not None else ("none", None)
+    sizes = {"none": None, "longer": n + rng.choice([2, 7, 100]), "shorter": n // 2, "same-size": n, "empty": 0,
+             "much-longer": n + 3000, "identical": n, "longer+stale-RI": n + 13, "one-longer": n + 1,
+             "one-shorter": max(0, n - 1)}
+    m = sizes[kind]
+    if m is None:
+        return kind, None
+    pre = {"PI": content if kind == "identical" else {"sha": rng.randrange(1 << 30), "n": m}}
+    if kind.endswith("stale-RI"):
+        pre["RI"] = {"sha": rng.randrange(1 << 30), "n": rng.choice([0, 5, n + 1])}
+    return kind, pre
+
+
 def trip_case(rng, dims, content, lim, out_content=None, tag="", cassette=None):
     cas, in_static, out_static, in_rec, in_play, out_rec, out_play = dims
     c = {"kind": "trip", "cassette": cassette or cas, "limit": lim, "content": content,
@@ -151,11 +177,13 @@ def trip_case(rng, dims, content, lim, out_content=None, tag="", cassette=None):
          "in": make_side(rng, "in", in_static, rng.choice([0, 0, 1, 2]), in_rec, in_play, rng.random() < 0.2),
          "out": make_side(rng, "out", out_static, rng.choice([0, 0, 1, 2]), out_rec, out_play, rng.random() < 0.2),
          "tag": tag}
+    c["pre_kind"], c["pre"] = pre_state(rng, content)
     return c
 
 
 def generate(rng, tier):
     quick = tier != "thorough"
+    _pre_counter[0] = 0
     cases = []
     dims = dims_stream(rng)
     cat = content_catalogue(rng, 0 if quick else 60)
@@ -227,6 +255,37 @@ def generate(rng, tier):
         side["index"] = rng.choice([7, -9, len(side["extras"]) + 3])
         c["expect"] = "discard"
         cases.append(c)
+    # 9. the replayed path cannot be opened for writing (directory missing): correspondence only
+    for i in range(4 if quick else 20):
+        c = trip_case(rng, next(dims), rng.choice(cat)[1], LIM_DEFAULT, tag="unwritable")
+        c["unwritable"] = True
+        c["pre"], c["pre_kind"] = None, "none"
+        c["expect"] = "unwritable"
+        cases.append(c)
+    # 10. several recordings replayed one after another into the same path, and replayed twice
+    small = [spec for _, spec in cat if size_of(spec) <= 300]
+    def seq_case(contents, order, lim, pre, tag):
+        d = next(dims)
+        return {"kind": "seq", "cassette": d[0], "limit": lim, "name": rng.choice(["path", "file_path"]),
+                "dir": rng.choice(["plain", "plain", "unicode"]),
+                "in": make_side(rng, "in", d[1], rng.choice([0, 0, 1]), d[3], d[4], rng.random() < 0.2),
+                "contents": contents, "order": order, "pre": pre, "tag": tag}
+    rnd = lambda n: {"sha": rng.randrange(1 << 30), "n": n}
+    for rep in range(3 if quick else 25):
+        shrinking = [rnd(n) for n in sorted(rng.sample(range(0, 4000), 3), reverse=True)] + [hexspec(b"")]
+        cases.append(seq_case(shrinking, [0, 1, 2, 3], LIM_DEFAULT, None, "shrinking"))
+        cases.append(seq_case(shrinking, [3, 2, 1, 0], LIM_DEFAULT, None, "growing"))
+        cases.append(seq_case(shrinking, [0, 3, 1, 1, 0, 2, 2], LIM_DEFAULT, rnd(5000), "back-and-forth"))
+        mix = [rng.choice(small) for _ in range(rng.randrange(2, 5))]
+        order = [rng.randrange(len(mix)) for _ in range(rng.randrange(2, 7))]
+        cases.append(seq_case(mix, order, LIM_DEFAULT, rng.choice([None, rnd(rng.randrange(0, 400))]), "catalogue-mix"))
+        cases.append(seq_case([rnd(rng.randrange(1, 600))], [0, 0], LIM_DEFAULT, rng.choice([None, rnd(700)]), "twice"))
+        # with a limit: an above-limit recording (placeholder, 24 bytes) after / before real contents
+        L = rng.choice([30, 100, 1000])
+        with_ph = [rnd(L), rnd(L + 1), rnd(L - 1), hexspec(PLACEHOLDER), rnd(3 * L)]
+        cases.append(seq_case(with_ph, [0, 1, 2, 3, 4, 0, 3, 1], lim_explicit_bytes(L), rnd(2 * L), "around-limit"))
+        one_off = [rnd(n) for n in (50, 49, 51, 50)]
+        cases.append(seq_case(one_off, [0, 1, 2, 3, 1], lim_env("1"), None, "one-byte-steps"))
 
     # ---- unit level ----
     n_rand = 40 if quick else 400
@@ -272,8 +331,9 @@ def generate(rng, tier):
             kwargs["other"] = rng.choice(vals)
         cases.append({"kind": "path", "index": rng.randrange(-5, 5), "name": name, "args": args, "kwargs": kwargs, "tag": ""})
     # heavy trips first, then dealt round-robin so that every Coq shard gets its share of the long byte strings
-    trips = sorted([c for c in cases if c["kind"] == "trip"], key=lambda c: -size_of(c["content"]))
-    rest = [c for c in cases if c["kind"] != "trip"]
+    heavy = lambda c: sum(size_of(x) for x in c["contents"]) if c["kind"] == "seq" else size_of(c["content"])
+    trips = sorted([c for c in cases if c["kind"] in ("trip", "seq")], key=lambda c: -heavy(c))
+    rest = [c for c in cases if c["kind"] not in ("trip", "seq")]
     k = max(1, (len(cases) + SHARD - 1) // SHARD)
     per = (len(cases) + k - 1) // k
     buckets = [[] for _ in range(k)]
@@ -376,12 +436,18 @@ def g_obs(obs, pool):
         if b is None:
             return None
         return g_res("(%s, %s)" % (pool.lit(b), gstr(h["path"])))
-    hr, hp = holder(obs["holder_rec"]), holder(obs["holder_play"])
-    if hr is None or hp is None or obs.get("play_ret") is None:
+    hr = holder(obs["holder_rec"])
+    if obs.get("play_exc"):            # the replayed input call raised: the operation ended there
+        ret = g_res(None, obs["play_exc"])
+        hp = g_res(None, "KeyError") if obs["holder_play"].get("count") == 0 else None
+    else:
+        ret = g_res(gstr(obs["play_ret"])) if obs.get("play_ret") is not None else None
+        hp = holder(obs["holder_play"])
+    if hr is None or hp is None or ret is None:
         return BAD_OBS
     return "(Obs 0 %s %s %s %s %s %s %s %s %s %s)" % (
         pool.lit(bi), gstr(ri["path"]), pool.lit(bo), gstr(ro["path"]), roles(obs["opened_rec"]), roles(obs["opened_play"]),
-        g_res(gstr(obs["play_ret"])), glist(written), hr, hp)
+        ret, glist(written), hr, hp)
 
 
 def model_file(spec, lim, pool):
@@ -429,19 +495,54 @@ def to_gallina(case, obs):
             impl = g_res("ANone" if "none" in p else "(AStr %s)" % gstr(p["s"]) if "s" in p else "(AOther %s)" % gbool(p["other"]))
         return "CPath %s %s %s %s %s" % (gZ(case["index"]), gstr(case["name"]), glist([g_arg(a) for a in case["args"]]),
                                          g_kwargs(case["kwargs"]), impl)
+    if k == "seq":
+        return seq_gallina(case, obs)
     pool = Pool()
     lim = case["limit"]
+    pre = []
+    for r in ("RI", "PI"):
+        spec = (case.get("pre") or {}).get(r)
+        if spec is not None:
+            if size_of(spec) > 2 * filespec.INLINE_MAX:
+                return None
+            pre.append("(%s, %s)" % (gstr(r), pool.lit(expand(spec))))
     fin, fout = model_file(case["content"], lim, pool), model_file(case["out_content"], lim, pool)
     if fin is None or fout is None:
         return None                                  # multi-MB content below the limit: implementation side only
     in_rec, in_play = model_calls(case, "in")
     out_rec, out_play = model_calls(case, "out")
-    term = "CTrip (Trip %s %s %s %s %s %s %s %s %s %s %s %s %s)" % (
+    term = "CTrip (Trip %s %s %s %s %s %s %s %s %s %s %s %s %s %s %s)" % (
         g_explicit(lim), g_env(lim), gstr(case["name"]), gZ(case["in"]["index"]), gZ(case["out"]["index"]),
         gbool(case["out"]["static"]),
         glist(["(%s, %s)" % (gstr("RI"), fin), "(%s, %s)" % (gstr("RO"), fout)]),
         glist(["(%s, %s)" % (gstr("PO"), fout)]),
+        glist(pre), gbool(bool(case.get("unwritable"))),
         in_rec, in_play, out_rec, out_play, g_obs(obs, pool))
+    return pool.wrap(term)
+
+
+def seq_gallina(case, obs):
+    pool = Pool()
+    lim = case["limit"]
+    files = []
+    for spec in case["contents"]:
+        files.append("(%s, %s)" % (gZ(size_of(spec)), pool.lit(expand(spec))))
+    fake = {"in": case["in"], "name": case["name"]}
+    rec, play = model_calls(fake, "in")
+    pre = [] if case.get("pre") is None else ["(%s, %s)" % (gstr("PI"), pool.lit(expand(case["pre"])))]
+    if obs.get("status") != "ok":
+        impl = "[None; None; None; None; None; None; None; None; None; None; None]"       # mismatch
+    else:
+        steps = []
+        for sh in obs["steps"]:
+            b = None if sh is None else unhex(sh)
+            if sh is not None and b is None:
+                return None
+            steps.append(gopt(None if b is None else pool.lit(b)))
+        impl = glist(steps)
+    term = "CSeq (Seq %s %s %s %s %s %s %s %s %s %s)" % (
+        g_explicit(lim), g_env(lim), gstr(case["name"]), gZ(case["in"]["index"]), glist(files), rec, play,
+        glist(pre), glist(["%d%%nat" % i for i in case["order"]]), impl)
     return pool.wrap(term)
 
 
@@ -480,7 +581,24 @@ def direct(case, obs):
         return fails
     if k == "path":
         return fails          # correspondence only: what the documentation promises is covered by the trips
-    if case.get("expect") == "discard":
+    if k == "seq":
+        if obs.get("status") != "ok":
+            return [("seq-" + str(obs.get("status")), "recording / replaying the sequence did not complete")]
+        lim = case["limit"]
+        for step, (i, shown, ret) in enumerate(zip(case["order"], obs["steps"], obs["rets"])):
+            spec = case["contents"][i]
+            if ret != "PI":
+                fails.append(("sequence-replay-failed", "replay #%d (recording %d) returned %s" % (step, i, ret)))
+            elif not is_above_documented(size_of(spec), lim) and not same_bytes(shown, expand(spec)):
+                prev = "nothing" if step == 0 and case.get("pre") is None else "%d bytes" % (
+                    size_of(case["pre"]) if step == 0 else len(bytes.fromhex(obs["steps"][step - 1]["hex"]))
+                    if obs["steps"][step - 1] and "hex" in obs["steps"][step - 1] else -1)
+                fails.append(("input-bytes-differ-on-existing-file",
+                              "replay #%d of a %d byte recording into a path holding %s left %s" %
+                              (step, size_of(spec), prev, str(shown)[:100])))
+                break
+        return fails
+    if case.get("expect") in ("discard", "unwritable"):
         return fails
     lim = case["limit"]
     st = obs.get("status")
@@ -499,13 +617,16 @@ def direct(case, obs):
         if not same_bytes(obs["raw_in"].get("content"), PLACEHOLDER):
             fails.append(("input-above-limit-not-placeholder", "recording of an above-limit input does not hold the placeholder"))
     else:
-        if "RI" in written:
+        stale = (case.get("pre") or {}).get("RI")
+        if "RI" in written and (stale is None or not same_bytes(written["RI"], expand(stale))):
             fails.append(("input-restored-at-recorded-path", "replay wrote the file at the recorded path"))
         if "PI" not in written:
             fails.append(("input-not-restored", "no file at the path of the replayed call"))
         elif not same_bytes(written["PI"], expand(cin)):
-            fails.append(("input-bytes-differ", "restored input differs from the %d recorded bytes (got %s)" %
-                          (size_of(cin), str(written["PI"])[:120])))
+            had = (case.get("pre") or {}).get("PI")
+            fails.append(("input-bytes-differ" if had is None else "input-bytes-differ-on-existing-file",
+                          "restored input differs from the %d recorded bytes (replayed path held %s before; got %s)" %
+                          (size_of(cin), "nothing" if had is None else "%d bytes" % size_of(had), str(written["PI"])[:120])))
     if obs.get("play_ret") != "PI":
         fails.append(("input-return-path", "replayed input call returned %s, not the replayed path" % obs.get("play_ret")))
     for which, content, opened, role in (("holder_rec", cout, obs["opened_rec"], "RO"), ("holder_play", cout, obs["opened_play"], "PO")):
@@ -548,6 +669,19 @@ def features(case):
             f.add("negative-index")
         if case.get("dir") == "unicode":
             f.add("unicode-path")
+        f.add("replay-path-before:" + case.get("pre_kind", "none"))
+        if case.get("unwritable"):
+            f.add("replay-path-unwritable")
+    elif k == "seq":
+        f.add("cassette:" + case["cassette"])
+        f.add("seq:" + case["tag"])
+        f.add("seq-steps:%d" % len(case["order"]))
+        f.add("seq-before:" + ("file" if case.get("pre") is not None else "nothing"))
+        sizes = [size_of(case["contents"][i]) for i in case["order"]]
+        if any(a > b for a, b in zip(sizes, sizes[1:])):
+            f.add("seq:shrinking-step")
+        if any(a == b for a, b in zip(case["order"], case["order"][1:])):
+            f.add("seq:same-recording-twice")
     elif k == "above":
         f.add("above:" + case["tag"])
         f.add("limit:" + ("env" if case["limit"].get("env") is not None else "default" if case["limit"]["explicit"] is None
@@ -561,7 +695,7 @@ def features(case):
 
 def nontrivial(case):
     k = case["kind"]
-    if k == "trip":
+    if k in ("trip", "seq"):
         return True
     if k == "above":
         return case["tag"] in ("edge-1", "edge+0", "edge+1", "huge")
@@ -571,6 +705,15 @@ def nontrivial(case):
 
 
 def shrink_candidates(case):
+    if case["kind"] == "seq":
+        if case["cassette"] != "mem":
+            yield dict(case, cassette="mem")
+        for j in range(len(case["order"])):
+            if len(case["order"]) > 1:
+                yield dict(case, order=case["order"][:j] + case["order"][j + 1:])
+        if case["in"]["extras"] or case["in"]["rec"] != "pos" or case["in"]["play"] != "pos" or not case["in"]["static"]:
+            yield dict(case, **{"in": {"static": True, "extras": [], "rec": "pos", "play": "pos", "index": 0}})
+        return
     if case["kind"] != "trip":
         return
     if case["cassette"] != "mem":
@@ -588,7 +731,7 @@ def shrink_candidates(case):
 
 
 def search_harder(rng, bad_cases):
-    extra = [c for c in generate(rng, "thorough") if c["kind"] == "trip"]
+    extra = [c for c in generate(rng, "thorough") if c["kind"] in ("trip", "seq")]
     rng.shuffle(extra)
     return extra[:400]
 
